@@ -48,6 +48,10 @@ def run(ctx, rep):
     rep.floor('C02.flow', 'leaf fields of StarkProof', len(static_fields), 50)
     rep.floor('C02.flow', 'dynamic parameter fields', len(dyn_fields), 340)
     rep.note('fields', {'static': len(static_fields), 'dynamic_params': len(dyn_fields)})
+    # the public-input digest binds its fields on every evaluation (no filter / fallback / value-dependent branch on the
+    # way into the hashes): a field that only sometimes reaches the seed is not tamper-evident
+    import props.c13 as c13
+    c13.unconditional(db, rep, db.fn(GET_HASH, 'C02'), rule='C02.digest')
     for lname, lself in sorted(lay.items()):
         sm = fieldflow.SinkMap(db, VERIFY, {'Layout': lself})
         for path, ty, vec in static_fields:
